@@ -504,7 +504,17 @@ def make_case(rng, x, mistakes=0, with_twin=False):
             c["sub_v"] = v
     if x["kind"] == "variant" and isinstance(x["fields_magic"], str) and x["fields_magic"] in EBY:
         c["sub_f"] = x["fields_magic"]
-    words = sorted(set(re.findall(r"[A-Za-z_][A-Za-z0-9_:]*", c["src"])))
-    names = sorted(all_names(x))
-    c["pairs"] = [(w, n) for w in words for n in names][:600]
+    return c
+
+
+PAIR_CAP = 2000
+
+
+def set_pairs(c):
+    """the (word, name) similarity table of the case's FINAL source (callers may replace src after make_case): the words
+    that are not names first; a case whose table would be cut is marked and left out by the driver"""
+    names = sorted(set(all_names(EBY[c["recv"]])))
+    words = sorted(set(re.findall(r"[A-Za-z_][A-Za-z0-9_:]*", c["src"] + " " + c.get("twin_src", ""))), key=lambda w: (w in names, w))
+    c["pairs"] = [(w, n) for w in words for n in names][:PAIR_CAP]
+    c["pairs_truncated"] = len(words) * len(names) > PAIR_CAP
     return c
